@@ -219,3 +219,19 @@ def save_replay(prop, idx, desc, driver, trace_file, run_index, hits, extra=None
         with open(os.path.join(d, "trace.ndjson"), "w") as fh:
             fh.writelines(out[:5000])
     return d
+
+
+def run_apalache(spec_rel, inv, expect_ok=True, timeout=600):
+    """Discharge (or, for a negative control, refute) an invariant with Apalache at length 0 (Init => Inv over unbounded integers)."""
+    outdir = os.path.join(CACHE, "apalache")
+    t0 = time.time()
+    try:
+        p = subprocess.run(["apalache-mc", "check", "--length=0", "--inv=" + inv, "--out-dir=" + outdir, os.path.basename(spec_rel)],
+                           cwd=os.path.join(SPEC, os.path.dirname(spec_rel)), stdout=subprocess.PIPE, stderr=subprocess.STDOUT, universal_newlines=True, timeout=timeout)
+        txt = p.stdout
+    except subprocess.TimeoutExpired:
+        txt = "TIMEOUT"
+    shutil.rmtree(outdir, ignore_errors=True)
+    ok = "The outcome is: NoError" in txt
+    refuted = "The outcome is: Error" in txt
+    return dict(spec=spec_rel, inv=inv, proved=ok, refuted=refuted, as_expected=(ok if expect_ok else refuted), wall=time.time() - t0, tail=txt[-1200:])
